@@ -483,6 +483,13 @@ def cases(tier, seed):
         for ev in ('p:abort', 'p:fin'):
             for k in (1, 2, 4):
                 yield dict(role=role, mode='causal', event=ev, k=k, n=10, seed=seed)
+    # the peer stops reading for a while (little buffering between the applications) in the
+    # middle of a long outgoing message: nothing has happened in the protocol, so nothing may
+    # be indicated, closed or given up - the rest goes out once the peer reads again
+    for role in ('acceptor', 'requestor'):
+        for stall in (6.0, 14.0, 40.0):
+            for cap in (1024, 4096):
+                yield dict(role=role, mode='stalled-peer', stall=stall, cap=cap, n=24, seed=seed)
     n_walk = 1500 if tier == 'quick' else 60000
     for i in range(n_walk):
         yield dict(role='acceptor' if i % 2 else 'requestor', walk=40, mode='quiescent',
@@ -577,7 +584,62 @@ def run_causal(case):
         drv.close()
 
 
+def run_stalled_peer(case):
+    from .. import lib
+    role = case['role']
+    drv = Driver(role, 'c05sp/%s/%s/%s' % (case['seed'], case['stall'], case['cap']))
+    viol = []
+    res = {'violations': viol, 'stats': {}}
+    try:
+        rig = drv.rig
+        for ev in (['p:rq', 'u:ac'] if role == 'acceptor' else ['u:assoc', 'p:ac']):
+            if drv.step(ev):
+                return {'violations': [], 'stats': {}, 'skipped': 'prefix failed'}
+        n = case['n']
+        rig.wire_take()
+        mark = len(rig.wire_bytes)
+        rig.prov_sock.tx.capacity = case['cap']
+        raws = [rc.enc_pdata([(1, 2 if j == n - 1 else 0, b'blk-%02d-' % j + b'z' * 400)])
+                for j in range(n)]
+        drv.history.append('~u:gen%d while the peer does not read for %.0f s' % (n, case['stall']))
+        rig.user((lib.pdata([(1, 2 if j == n - 1 else 0, b'blk-%02d-' % j + b'z' * 400)])
+                  for j in range(n)))
+        rig.settle()
+        rig.advance(case['stall'])
+        rig.settle()
+        inds = rig.take_indications()
+        if inds or rig.state() != 'Sta6' or rig.sock_gone():
+            viol.append(_viol('gave-up-on-a-peer-that-merely-reads-slowly stall=%.0f after %.0f s '
+                              'without the peer reading: indications %r state %s socket gone %s'
+                              % (case['stall'], case['stall'], [_describe_user(i) for i in inds],
+                                 rig.state(), rig.sock_gone()), role, drv, case))
+            return _fin(res, drv, case, viol)
+        for _ in range(4 * n):
+            rig.wire_take()          # the peer reads again
+            rig.settle()
+            if len(rig.wire_bytes) - mark >= len(b''.join(raws)):
+                break
+        rig.wire_take()
+        sent = rig.wire_bytes[mark:]
+        if sent != b''.join(raws):
+            got_p, _rem = rc.parse_stream(sent)
+            viol.append(_viol('outgoing-message-damaged-by-slow-peer stall=%.0f %d of %d PDUs '
+                              'arrived (%d of %d bytes)' % (case['stall'], len(got_p), n,
+                                                           len(sent), len(b''.join(raws))),
+                              role, drv, case))
+        if rig.take_indications() or rig.state() != 'Sta6' or rig.sock_gone():
+            viol.append(_viol('association-disturbed-by-slow-peer stall=%.0f state %s' % (
+                case['stall'], rig.state()), role, drv, case))
+        rig.prov_sock.tx.capacity = None
+        res['stats'] = {'fault.peer_stops_reading': 1}
+        return _fin(res, drv, case, viol)
+    finally:
+        drv.close()
+
+
 def run_case(case):
+    if case.get('mode') == 'stalled-peer':
+        return run_stalled_peer(case)
     if case.get('mode') == 'causal':
         return run_causal(case)
     if case.get('mode') == 'concurrent':
